@@ -469,6 +469,22 @@ def _emit_fn(unit, fs, it, out, rules):
                 ed.replace(s, s + len(p), new)
                 _bump(rules, "declared unit rewrite `%s` => `%s`" % (old, new))
                 kk += 1
+        for (path, stub) in unit.opaque_calls:
+            pp = pat_of(path)
+            kk = 1
+            while True:
+                s0 = find_seq(toks, bo, bc + 1, pp, kk)
+                if s0 is None:
+                    break
+                kk += 1
+                e0 = s0 + len(pp)
+                if toks[e0].text != "(":
+                    continue
+                close = match_close(toks, e0)
+                if any(a <= s0 < b for (a, b, _) in ed.repl):
+                    continue
+                ed.replace(s0, close + 1, stub)
+                _bump(rules, "declared opaque constructor call `%s(..)` => `%s`" % (path, stub))
         for (old, k_, new) in fs.replaces:
             p = pat_of(old)
             s = find_seq(toks, bo, bc + 1, p, k_)
